@@ -178,7 +178,7 @@ Qed.
 (* ------------------------------------------------------------------ the speed factor *)
 (* for every unit configuration (time model speed / distance / time unit, unit of the time feature,
    service speed unit, model speed unit: 3 x 5 x 4 x 4 x 3 x 3 = 2160) the speed handed to the predictor is
-   within 1 % of the exact SI conversion of the table speed; finite fact about the regenerated tables *)
+   within 0.3 % of the exact SI conversion of the table speed; finite fact about the regenerated tables *)
 Lemma tau_table : forallb tau_ok tau_configs = true.
 Proof. vm_compute. reflexivity. Qed.
 
